@@ -61,6 +61,8 @@ func C08(r *core.Run) {
 	rules.DispatchOrder(r, codecRel, "encoder.encodeValue", "lib/j5reflect")
 	// an output is the caller's: it is not memory that goes back into a pool
 	rules.PoolAlias(r, []string{codecRel})
+	// a root message is an object or a oneof: which, is decided before it is written
+	rootKindDecided(r)
 	// totality of the encoder path
 	sc := rules.NewScope(r, []rules.Entry{rules.E(codecRel, "Codec.ProtoToJSON"), rules.E(codecRel, "Codec.EncodeAny")})
 	bce := rules.RunBCE(r, sc.Packages())
@@ -1282,7 +1284,7 @@ func (w *wireCtx) ruleW6() {
 		core.InspectTree(w.pk, fd.Body, func(n ast.Node) bool {
 			switch x := n.(type) {
 			case *ast.BinaryExpr:
-				if x.Op == token.EQL {
+				if x.Op == token.EQL || x.Op == token.NEQ {
 					for _, side := range []ast.Expr{x.X, x.Y} {
 						if s, ok := core.ConstString(w.info, side); ok && s == "!type" {
 							found = true
